@@ -11,6 +11,24 @@ From Coq Require Import List Arith ZArith Bool.
 Import ListNotations.
 Require Import Base.C11_Unique Base.Corr.
 
+(* Mesh._sort_entities on one column: sort; if the sorted column has a repeated vertex, drop the duplicate of the FIRST adjacent
+   equal pair and prepend the smallest vertex (the padded triangular slots of wedges get the key [u0, u0, u1, u2] whatever vertex
+   the cell repeats).  Columns without repeats: plain sort. *)
+Fixpoint drop_first_dup (l : list nat) : option (list nat) :=
+  match l with
+  | x :: r => match r with
+              | y :: r' => if x =? y then Some (x :: r') else option_map (cons x) (drop_first_dup r)
+              | [] => None
+              end
+  | [] => None
+  end.
+Definition sort_entity (l : list nat) : list nat :=
+  let s := isort l in
+  match drop_first_dup s with
+  | Some s' => hd 0 s :: s'
+  | None => s
+  end.
+
 (* t[ix][:, e] : the vertices of local slot ix of cell c *)
 Definition slotv (ix c : list nat) : list nat := map (fun i => nth i c 0) ix.
 
@@ -29,7 +47,7 @@ Fixpoint reshape (nr nc : nat) (l : list nat) : list (list nat) :=
 Definition build_entities (sort : bool) (cells indices : list (list nat))
   : list (list nat) * list (list nat) :=
   let raw := raw_keys cells indices in
-  let ks := map isort raw in                         (* np.sort(indexing, axis=0) *)
+  let ks := map sort_entity raw in                   (* Mesh._sort_entities(indexing) *)
   let u := uniq lex_cmp ks in                        (* np.unique(axis=1) *)
   let ixa := first_index lex_cmp ks in               (*   return_index *)
   let ixb := inverse lex_cmp ks in                   (*   return_inverse *)
